@@ -1,5 +1,6 @@
 import Xp.Base.JsonIO
 import Xp.Model.C14
+import Xp.Model.C14World
 namespace Xp.C14
 open Lean (Json)
 open Xp.IOx
@@ -123,6 +124,58 @@ def checkRun (pname : String) (env : Env) (plan : Plan) (s : Store) : Option Str
         else none
     | _ => none
 
+/-- a fault outcome of the scenario: fail | conflict | crashBefore | crashAfter | fail:<class> -/
+def outOf : String → Out
+  | "fail" => .fail .other
+  | "conflict" => .fail .conflict
+  | "crashBefore" => .crashBefore
+  | "crashAfter" => .crashAfter
+  | "fail:notFound" => .fail .notFound
+  | s => if s.startsWith "fail:" then .fail .other else .ok
+
+def actOf (j : Json) : Act :=
+  match str j "op" with
+  | "edit" => .edit (specOf (obj j "spec"))
+  | "touch" => .touch (str j "name")
+  | "del" => .del (str j "name")
+  | "deact" => .deact (str j "name")
+  | "create" => .create (revOf (obj j "rev"))
+  | _ => .sync
+
+def schedOf (faults acts : List Json) : Sched :=
+  { out := fun k => match faults.find? (fun f => nat f "k" == k) with
+      | some f => outOf (str f "o")
+      | none => .ok
+    env := fun k w => (acts.filter (fun a => nat a "k" == k)).foldl (fun w a => actW w (actOf a)) w }
+
+def hasKey (j : Json) (k : String) : Bool :=
+  match j.getObjVal? k with
+  | .ok .null => false
+  | .ok _ => true
+  | .error _ => false
+
+/-- the informer cache the harness shipped with the step (`view`), for package `p` -/
+def viewOf (st : Json) (p : Pkg) : View × List String :=
+  if !hasKey st "view" then ({}, []) else
+  let v := obj st "view"
+  let revs : Option (List Rev) :=
+    if bool v "hasRevs" then some ((arr v "revs").foldl (fun acc j => insertRev (revOf j) acc) []) else none
+  let pk : Option (Option Pkg) :=
+    if !hasKey v "pkg" then none else
+    let q := obj v "pkg"
+    if bool q "missing" then some none
+    else some (some { name := p.name, uid := str q "uid", spec := specOf (obj q "spec"),
+                      status := { curRev := str q "curRev", curId := str q "curId", pausedCond := bool q "pausedCond" } })
+  ({ revs := revs, pkg := pk }, strs v "stale")
+
+/-- a plain step: a fresh cache, nobody else, no error classes - the world of `Xp.run sem` -/
+def plainStep (st : Json) : Bool :=
+  !hasKey st "view" && (arr st "acts").isEmpty && (arr st "faults").all (fun f => !(str f "o").startsWith "fail:")
+
+def setPkg (p : Pkg) : List Pkg → List Pkg
+  | [] => [p]
+  | q :: rest => if q.name = p.name then p :: rest else q :: setPkg p rest
+
 def handler : Handler := fun scn =>
   if str scn "kind" == "name" then
     let names := (arr scn "probes").map fun p =>
@@ -138,29 +191,61 @@ def handler : Handler := fun scn =>
     if !asciiOk then .error "non-ASCII name probe: outside the model's domain" else
     .ok (Json.mkObj [("recs", Json.arr #[]), ("revs", Json.arr #[]), ("names", Json.arr (names.map Json.str).toArray)], true, "")
   else
-  let p := pkgOf (obj scn "pkg")
-  if !(isAscii p.name && isAscii p.spec.source) then .error "non-ASCII package: outside the model's domain" else
-  let s0 : Store := { pkg := some p, revs := (arr scn "revs").foldl (fun acc j => insertRev (revOf j) acc) [] }
-  let step := fun (acc : Store × List Json × Option String) (st : Json) =>
-    let (s, recs, bad) := acc
+  let p0 := pkgOf (obj scn "pkg")
+  let more := (arr scn "more").map pkgOf
+  let pkgs0 : List Pkg := more.foldl (fun acc q => if acc.any (fun x => x.name == q.name) then acc else acc ++ [q]) [p0]
+  if !(pkgs0.all fun p => isAscii p.name && isAscii p.spec.source) then .error "non-ASCII package: outside the model's domain" else
+  let revs0 : List Rev := (arr scn "revs").foldl (fun acc j => insertRev (revOf j) acc) []
+  let pnOf := fun (st : Json) => if str st "pkg" == "" then p0.name else str st "pkg"
+  let step := fun (acc : List Pkg × List Rev × List Json × Option String) (st : Json) =>
+    let (pkgs, revs, recs, bad) := acc
+    let pn := pnOf st
+    match pkgs.find? (fun q => q.name == pn) with
+    | none => acc
+    | some p =>
     match str st "op" with
-    | "edit" => ((exec s (.env (.editSpec (specOf (obj st "spec"))))).1, recs, bad)
-    | "finalize" => ((exec s (.env .finalize)).1, recs, bad)
-    | "addfin" => ((exec s (.env (.addFin (str st "name")))).1, recs, bad)
+    | "edit" =>
+      if hasKey st "spec" then (setPkg { p with spec := specOf (obj st "spec") } pkgs, revs, recs, bad) else acc
+    | "recreate" =>
+      if str st "uid" == "" then acc else
+      (setPkg { p with uid := str st "uid", status := { curRev := "", curId := "", pausedCond := false } } pkgs, revs, recs, bad)
+    | "finalize" => (pkgs, (exec { pkg := none, revs := revs } (.env .finalize)).1.revs, recs, bad)
+    | "addfin" => (pkgs, (exec { pkg := none, revs := revs } (.env (.addFin (str st "name")))).1.revs, recs, bad)
     | "reconcile" =>
       let env : Env := { head := fun _ => headOf (str st "head"), parseOk := fun _ => bool st "parseOk" }
-      let plan := planOf (arr st "faults")
+      let s : Store := { pkg := some p, revs := revs }
+      let (view, stale) := viewOf st p
+      let w0 : World := { live := s, view := view, dirty := stale }
+      let sc := schedOf (arr st "faults") (arr st "acts")
       let prog := pkgReconcile env p.name
-      let states := reach sem plan 0 prog s
-      let (s', r) := run sem plan 0 prog s
+      let states := afterW sc 0 prog w0
+      let (w', r) := runW sc 0 prog w0
       let o := Json.mkObj [("res", .str (resStr r)),
-        ("trace", Json.arr ((dedup (states.map (·.revs))).map revsJson).toArray),
-        ("pkg", pkgObs s')]
-      let bad' := match bad with | some b => some b | none => checkRun p.name env plan s
-      (s', recs ++ [o], bad')
+        ("trace", Json.arr ((dedup (states.map (·.live.revs))).map revsJson).toArray),
+        ("pkg", pkgObs w'.live)]
+      let bad' := match bad with
+        | some b => some b
+        | none =>
+          if plainStep st then
+            -- the plain world is `Xp.run sem`: check the property on it, and that `runW` is `run` there
+            let plan := planOf (arr st "faults")
+            let (s1, r1) := run sem plan 0 prog s
+            if s1 != w'.live || r1 != r then some "C14:world-model-differs-from-plain-model"
+            else checkRun p.name env plan s
+          else
+            -- the world of `le_one_active_every_instant_under_interference`: fresh revision cache,
+            -- quiet other clients, the List not answered NotFound: at most one Active at every instant
+            let listNF := (arr st "faults").any (fun f => nat f "k" == 1 && str f "o" == "fail:notFound")
+            if view.revs.isNone && !listNF && decide (WF s) && (activeRevs p.name s).length ≤ 1 &&
+                (reachW sc 0 prog w0).any (fun x => (activeW p.name x).length > 1) then some "C14:two-active"
+            else none
+      let pkgs' := match w'.live.pkg with
+        | some q => setPkg q pkgs
+        | none => pkgs
+      (pkgs', w'.live.revs, recs ++ [o], bad')
     | _ => acc
-  let (sf, recs, bad) := (arr scn "steps").foldl step (s0, [], none)
-  let out := Json.mkObj [("recs", Json.arr recs.toArray), ("revs", revsJson sf.revs), ("names", Json.arr #[])]
+  let (_, revsF, recs, bad) := (arr scn "steps").foldl step (pkgs0, revs0, [], none)
+  let out := Json.mkObj [("recs", Json.arr recs.toArray), ("revs", revsJson revsF), ("names", Json.arr #[])]
   .ok (out, bad.isNone, bad.getD "")
 
 end Xp.C14
